@@ -37,7 +37,7 @@ m = {
                  "kind_free_text": "custom static analyser over go/packages + go/ssa + VTA call graph (x/tools v0.29.0): ok-/error-discipline, dominance and control dependence, dispatch- and decision-table extraction, loop coverage and scanner-progress, effect inventories, schema cross-checks against go/ast; thorough tier adds an analyser self-test on scratch copies (controls/)"}],
     "checks": checks,
     "not_applicable": na,
-    "notes": "Technique family: static analysis only. Every check loads /repo's current working tree, never runs gopatch, and claims level 'other': structural necessary conditions of the property hold on every path/site (rules listed in evidence.coverage.explanation, with the clauses that are NOT decided). Twenty-one genuine defects (F1-F18, F20, F22 and F23, DESIGN.md §5) were repaired in /repo with 'fix:' commits (known_findings.json lists them as fixed; they suppress nothing); two (F19, C17-R11: astutil.AddNamedImport merges import blocks and loses their comments; F21, C17-R8: the region of the first element of a list starts at the parent's start and covers the package clause's trailing comment) are recorded as known findings and printed as KNOWN-FINDING.",
+    "notes": "Technique family: static analysis only. Every check loads /repo's current working tree, never runs gopatch, and claims level 'other': structural necessary conditions of the property hold on every path/site (rules listed in evidence.coverage.explanation, with the clauses that are NOT decided). Twenty-two genuine defects (F1-F18, F20, F22-F24, DESIGN.md §5) were repaired in /repo with 'fix:' commits (known_findings.json lists them as fixed; they suppress nothing); two (F19, C17-R11: astutil.AddNamedImport merges import blocks and loses their comments; F21, C17-R8: the region of the first element of a list starts at the parent's start and covers the package clause's trailing comment) are recorded as known findings and printed as KNOWN-FINDING.",
 }
 json.dump(m, open(os.path.join(V, 'MANIFEST.json'), 'w'), indent=1)
 print("checks:", [c['property_id'] for c in checks], "na:", [n['property_id'] for n in na])
